@@ -97,6 +97,11 @@ class DBusClientConnection (txdbus.protocol.BasicDBusProtocol):
         Called when the transport loses connection to the bus
         """
         if self.busName is None:
+            # lost before the Hello reply: whoever waits for the connection
+            # must be told
+            f = self.factory
+            if f is not None and not f.d.called:
+                f._failed(reason)
             return
 
         for cb in self._dcCallbacks:
